@@ -283,6 +283,12 @@ func (e *Engine) model(st *State, name string, fn *ssa.Function, args []Val, rt 
 		}
 		return one(&Opaque{Key: "sprintf(" + valKey(args[0]) + "," + valKey(Tuple(el)) + ")", Type: rt, Fn: "sprintf", Args: append([]Val{args[0]}, el...)})
 	case "(*sync.Once).Do":
+		if e.RunOnce && len(args) == 2 {
+			if fv, ok := args[1].(*FuncVal); ok && isPrismFn(fv.Fn) && len(fv.Fn.Blocks) > 0 {
+				outs := e.inline(st, fv.Fn, nil, fv.Bindings, 1)
+				return outs, true
+			}
+		}
 		return one(nil)
 	case "(encoding/binary.littleEndian).Uint16", "(encoding/binary.littleEndian).Uint32", "(encoding/binary.littleEndian).Uint64",
 		"(encoding/binary.bigEndian).Uint16", "(encoding/binary.bigEndian).Uint32", "(encoding/binary.bigEndian).Uint64":
@@ -634,9 +640,18 @@ func (e *Engine) globalInitVal(g *ssa.Global) (Val, bool) {
 		initFn := g.Pkg.Func("init")
 		if initFn != nil && len(initFn.Blocks) > 0 {
 			sub := *e
+			userOpaque := e.Opaque
+			pkg := g.Pkg
 			sub.Opaque = func(fn *ssa.Function) bool {
-				// other packages' initialisers and declared init functions are not followed
-				return fn.Name() == "init" || strings.HasPrefix(fn.Name(), "init#")
+				// other packages' initialisers are not followed; declared init functions only on request
+				if fn.Name() == "init" {
+					return true
+				}
+				if strings.HasPrefix(fn.Name(), "init#") {
+					return !(e.RunInitFuncs && fn.Pkg == pkg)
+				}
+				// the caller's opaque set applies to initialisers only in the table-wiring mode
+				return e.RunInitFuncs && userOpaque != nil && userOpaque(fn)
 			}
 			sub.FailReads = false
 			sub.inInit = true
@@ -648,11 +663,19 @@ func (e *Engine) globalInitVal(g *ssa.Global) (Val, bool) {
 				if o.Kind != "return" {
 					continue
 				}
+				isGlobalCell := map[*Cell]bool{}
 				for gg, c := range e.globals {
+					isGlobalCell[c] = true
 					if gg.Pkg == g.Pkg {
 						if v, ok := o.St.mem[c]; ok {
 							e.initVals[gg] = v
 						}
+					}
+				}
+				// storage allocated during initialisation that the globals point into
+				for c, v := range o.St.mem {
+					if !isGlobalCell[c] && c.Alloc {
+						e.constCells[c] = v
 					}
 				}
 				break
